@@ -53,15 +53,15 @@ fn glossary(table: &Table, hard_bound: usize) -> Counting {
 }
 
 /// alias values (names a b c are the aliases; x y z plain commands)
-const VALUES_QUICK: [&str; 17] = ["b", "b ", "x\t", "x b ", "x G ", "c x", "a x", "", " ", "if", "!", "{", "x;", "| x", "&& x", ">f", "v=1"];
-const VALUES_MORE: [&str; 16] = [
-    "c ", "a ", "b\t", "\"a\"", "\\a", "x y ", "b c", "( b", "x; b", "then", "do", "} ", "fi", "! b", "b\nc", "x &&",
+const VALUES_QUICK: [&str; 18] = ["do x", "b", "b ", "x\t", "x b ", "x G ", "c x", "a x", "", " ", "if", "!", "{", "x;", "| x", "&& x", ">f", "v=1"];
+const VALUES_MORE: [&str; 18] = [
+    "c ", "a ", "b\t", "\"a\"", "\\a", "x y ", "b c", "( b", "x; b", "then", "do", "} ", "fi", "! b", "b\nc", "x &&", "do x ", "x do",
 ];
 const GLOBAL_VALUES: [&str; 6] = ["x", "'b'", "y ", "c", "b x", "a "];
 
 const SLOT: [&str; 9] = ["a", "b", "c", "x", "\"a\"", "\\b", "a'c'", "v=a", "G"];
 
-const TEMPLATES: [&str; 41] = [
+const TEMPLATES: [&str; 46] = [
     "command _ _",
     "command command _ _",
     "x ; command _",
@@ -95,6 +95,11 @@ const TEMPLATES: [&str; 41] = [
     "until _ _ ; do _ ; done",
     "for i in _ _ ; do _ _ ; done",
     "for i ; do _ ; done",
+    "for i in _ ; _ _ ; done",
+    "for i in x ; _ ; _ ; done",
+    "for i ; _ _ ; done",
+    "for i in x\n_\n_ ; done",
+    "for i _ _ ; done",
     "case _ in _ ) _ _ ;; esac",
     "case x in x | _ ) _ ;; ( y ) _ ;; esac",
     "_ \\\n _ _",
@@ -215,7 +220,63 @@ const REGRESSION: [(&str, &str, &str, &str); 8] = [
     ("\nx", "b", "b", "x || a"),
 ];
 
+/// "The commands executed equal those obtained by performing these textual substitutions by hand":
+/// the whole shell (virtual system) runs a script that defines aliases - including values that span
+/// lines - and uses them, read from standard input as a file, as a pipe fed line by line, as a -c
+/// string, and by an interactive shell (`-i`); the probe events must be those of the script with the
+/// substitutions written out.
+fn executed_commands(ctx: &Ctx) {
+    // (alias definitions, use, the use written out by hand)
+    const CASES: [(&str, &str, &str); 12] = [
+        ("alias two='probe k1\nprobe k2'", "two", "probe k1\nprobe k2"),
+        ("alias two='probe k1\nprobe k2'", "two; probe k3", "probe k1\nprobe k2; probe k3"),
+        ("alias two='probe k1\nprobe k2'", "two x\nprobe k3", "probe k1\nprobe k2 x\nprobe k3"),
+        ("alias m='probe k1 &&\nprobe k2'", "m y", "probe k1 &&\nprobe k2 y"),
+        ("alias t='if probe k1\nthen probe k2\nfi\nprobe k3'", "t z", "if probe k1\nthen probe k2\nfi\nprobe k3 z"),
+        ("alias three='probe k1\nprobe k2\nprobe k3'", "three\nthree w", "probe k1\nprobe k2\nprobe k3\nprobe k1\nprobe k2\nprobe k3 w"),
+        ("alias a='b\nprobe k2'\nalias b='probe k1'", "a", "probe k1\nprobe k2"),
+        ("alias a='probe k1\nb'\nalias b='probe k2\nprobe k3'", "a v", "probe k1\nprobe k2\nprobe k3 v"),
+        ("alias g='{ probe k1\nprobe k2; }'", "g; probe k3", "{ probe k1\nprobe k2; }; probe k3"),
+        ("alias nl='probe k1\n'", "nl\nprobe k2", "probe k1\n\nprobe k2"),
+        ("alias sp='probe k1 '\nalias arg='k2\nprobe k3'", "sp arg", "probe k1 k2\nprobe k3"),
+        ("alias c='probe k1 # comment\nprobe k2'", "c", "probe k1 # comment\nprobe k2"),
+    ];
+    for (defs, usage, by_hand) in CASES {
+        let with_alias = format!("{defs}\n{usage}\nprobe k9\n");
+        let written_out = format!("{by_hand}\nprobe k9\n");
+        let ev = |out: &crate::vsh::VOut| -> Vec<String> { out.events.iter().filter(|e| e.kind == "probe").map(|e| e.args.join(" ")).collect() };
+        let reference = ev(&crate::vsh::run_script(&written_out, crate::sched::Strategy::Fifo));
+        for mode in ["file", "pipe by lines", "pipe by bytes", "-c", "-i", "-i pipe by lines"] {
+            let mut cfg = match mode {
+                "-c" => crate::vsh::VCfg::with_args(vec!["yash".into(), "-c".into(), with_alias.clone()]),
+                "-i" | "-i pipe by lines" => crate::vsh::VCfg::with_args(vec!["yash".into(), "-i".into()]),
+                _ => crate::vsh::VCfg::with_args(vec!["yash".into()]),
+            };
+            cfg.extra = crate::vsh::v_probes();
+            match mode {
+                "file" | "-i" => cfg.stdin = with_alias.as_bytes().to_vec(),
+                "pipe by lines" | "-i pipe by lines" => cfg.stdin_chunks = Some(with_alias.split_inclusive('\n').map(|l| l.as_bytes().to_vec()).collect()),
+                "pipe by bytes" => cfg.stdin_chunks = Some(with_alias.bytes().map(|b| vec![b]).collect()),
+                _ => {}
+            }
+            let out = crate::vsh::run_v(cfg);
+            ctx.eval();
+            ctx.count("executed_command_runs", 1);
+            let got = ev(&out);
+            if got != reference || out.end != crate::vsh::End::Done {
+                ctx.violation(
+                    format!("alias:executed-commands:{mode}"),
+                    format!("script ({mode}):\n{with_alias}executed probes {got:?} (end {:?})\nthe substitutions written out by hand:\n{written_out}execute {reference:?}\nstderr:\n{}", out.end, out.err()),
+                );
+            } else {
+                ctx.nontrivial_str(&format!("aliasexec|{defs}|{usage}|{mode}"));
+            }
+        }
+    }
+}
+
 pub fn run(ctx: &Ctx) {
+    executed_commands(ctx);
     let quick = ctx.quick();
     for (a, b, c, line) in REGRESSION {
         let mut table = Table::new();
